@@ -5,6 +5,7 @@ import JunoModel.C06.ModelFeedConc
 import JunoModel.C06.ModelStore
 import JunoModel.C06.ModelStatus
 import JunoModel.C06.ModelClasses
+import JunoModel.C06.ModelPlugin
 /-!
 Line-protocol driver for the C06 model (`lake build c06drv`).
 
@@ -43,6 +44,9 @@ and root 0). Chains are written GENESIS FIRST.
                           one event of `Impl.step`     -> `<obs>;<obs>… | task=<lpv|->`
   impl? <event>           the same answer without changing the state
   impl-end                -> `chain=<…> reorg=<range|-> task=<lpv|->`
+  plug <event>            what a registered plugin is told while the machine executes this event in its
+                          CURRENT state (`Impl.pluginCalls`, state not changed)
+                          -> `-` | `nb N H` | `rb N H (TN:TH|-)` (several: separated by `;`)
   impl deliverv REQ B VERHEX C   the delivery with the block's protocol-version string (hex of its
                           bytes, `-` = empty) as an input (`Impl.deliverV`)
   ver VERHEX              core.ParseBlockVersion / CheckBlockVersion
@@ -140,6 +144,11 @@ def optBlk? (s : String) : Option (Option Blk) :=
 
 /-- one event of the serial machine:
   deliver REQ B C | reorg NEXT (N H | -) (B | -) | iter (B | -) REVOK | restart -/
+def showPCall : PCall → String
+  | .newBlock n h => s!"nb {n} {h}"
+  | .revertBlock n h none => s!"rb {n} {h} -"
+  | .revertBlock n h (some (tn, th)) => s!"rb {n} {h} {tn}:{th}"
+
 def implEv? : List String → Option Ev
   | ["deliver", r, b, c] => do pure (.deliver (← r.toNat?) (← blk? b) (← bit? c))
   | ["reorg", n, "-", cb] => do pure (.reorgDetected (← n.toNat?) none (← optBlk? cb))
@@ -384,6 +393,12 @@ def stepLine (st : St) (line : String) : St × String :=
     (st, s!"chain={showChain st.impl.node.chain} reorg=" ++
       (match st.impl.node.reorg with | some r => showRange r | none => "-") ++ " task=" ++
       (match st.impl.task with | some l => toString l | none => "-"))
+  | "plug" :: ws =>
+    match implEv? ws with
+    | none => (st, "bad-op")
+    | some e =>
+      let cs := st.impl.pluginCalls st.cfg e
+      (st, if cs.isEmpty then "-" else ";".intercalate (cs.map showPCall))
   | "impl?" :: ws =>
     -- what WOULD the event do (the state is not changed)
     match implEv? ws with
